@@ -261,6 +261,12 @@ static void do_cmd(HS* s, char* line)
     fprintf(o, "getrules2 rc=%d\n", rc);
   }
   else if (!strcmp(c, "force")) { do_cmd(s, p); }
+  else if (!strcmp(c, "junk"))
+  {
+    // shift heap addresses: allocate and keep <n> blocks of <size> bytes
+    int n = atoi(tok(&p)); int size = atoi(tok(&p));
+    for (int i = 0; i < n; i++) { volatile char* q = (char*) malloc(size); if (q) q[0] = 1; }
+  }
   else if (!strcmp(c, "file"))
   {
     char* name = tok(&p);
